@@ -55,6 +55,10 @@ CLAIMED = {
    text="is_within_square, distance_between, distance_2d and is_within_distance are evaluated symbolically over the reals and must be identical, as functions of all inputs, to the documented definition (offset rotated into the box frame by a proper rotation of the yaw; three inclusive per-axis bounds of half-extent + 2; Euclidean norm; strict circle test). AreaTrigger::contains and verify_trigger of the three expansions must pass player/trigger/size arguments in their roles, conjoin map equality and dispatch NotFound / NotInsideTrigger / Success on lookup-miss / !contains / contains. Identity of normal forms covers every yaw, aspect ratio and position at once, including the faces and corners of rotated boxes that no sampled point set pins down.",
    note="real-number semantics: f32 rounding and NaN are not modelled; the trigger tables' contents are data and are not checked; one genuine defect (non-rotation in is_within_square) was repaired by a fix: commit",
    ref="§3 C20"),
+ "C14": dict(level="other", tech="symbolic evaluation of from_version_N/to_version_N compositions over typed HIR (uninterpreted field symbols, exhaustive case split on variants/options/flag members) + dispatch-arm and normalised associated-type agreement rules",
+   text="For all 15 CollectiveMessage families and every older protocol version N in {2,3,5,6,7}, to_version_N(from_version_N(v)) is evaluated symbolically for an arbitrary canonical version-N value v (395 shape cases: every enum variant, Option, optional flag member; vector elements universally quantified; helpers, closures and generated flag-struct methods interpreted from their own bodies) and must be structurally identical to v. The six protocol-parameterised default methods and six expect_*_message_protocol helpers must dispatch ProtocolVersion::K to exactly from_version_K(VersionK::read)/to_version_K().write of the same flavour, and each normalised VersionK associated type must be the type version K's own opcode enum carries (75 pairs), so the protocol API and version K's codec are the same function.",
+   note="canonical values only (raw flag bits equal the members present); version-K codecs themselves are decided by C01/C06; std Clone/map/collect modelled by contract",
+   ref="§3 C14"),
 }
 NA_REASONS = {}
 DEFAULT_NA = "check under construction in this round (see DESIGN.md); will be claimed once its rule module is committed"
